@@ -11,5 +11,4 @@ CONSTANTS
 INIT Init
 NEXT Next
 CHECK_DEADLOCK FALSE
-INVARIANTS PosTruth ProgressInv LongestOp Layout AlgEqualsRef Emit
-PROPERTIES Progress
+INVARIANTS PosTruth Progress Monotone LongestOp Layout AlgEqualsRef Emit
